@@ -23,6 +23,9 @@ func checkC05(c *Check, a *Anchors) {
 	c05GlobOrder(c, a)
 	c05Generates(c, a)
 	c05Mtime(c, a)
+	// "any edit causes the commands to run again" also needs that queries between the edit and the run do not record the new fingerprint
+	c12DryImplied(c, a)
+	fpWriteDryGuarded(c, a, "queries-do-not-record")
 }
 
 func atomWith(asg map[string]bool, parts ...string) (string, bool) {
